@@ -221,30 +221,37 @@ End Reports.
 
 (* ---------- instance: the in-repo EVM codecs (options parsed from the definition by any function) ---------- *)
 Section RepoCodecs.
-  Context (fmt_legacy fmt_streamlined : Z) (Hdiff : fmt_legacy <> fmt_streamlined).
-  Context (legacy_opts_of : chandef -> option legacy_opts) (streamlined_opts_of : chandef -> option streamlined_opts).
+  Context (fmt_legacy fmt_unpacked fmt_streamlined : Z).
+  Context (legacy_opts_of : chandef -> option legacy_opts) (unpacked_opts_of : chandef -> option unpacked_opts)
+          (streamlined_opts_of : chandef -> option streamlined_opts).
   Context (retire_enc : gmap Z Z -> res (list Z)) (retire_total : forall va, is_panic (retire_enc va) = false).
   Hypothesis widths : EvmIntProofs.widths_complete.
 
   Definition repo_codecs (fmt : Z) : option (chandef -> report -> res (list Z)) :=
     if fmt =? fmt_legacy then Some (fun cd r => legacy_encode (legacy_opts_of cd) r)
+    else if fmt =? fmt_unpacked then Some (fun cd r => unpacked_encode (unpacked_opts_of cd) r)
     else if fmt =? fmt_streamlined then Some (fun cd r => streamlined_encode (streamlined_opts_of cd) fmt r)
     else None.
-  (* outside known finding F4: no premium-legacy report whose fee division leaves int32 *)
+  (* outside known finding F4: no premium-legacy / ABI-unpacked report whose fee division leaves int32 *)
   Definition outside_f4 (r : report) : Prop :=
-    cd_fmt (r_def r) = fmt_legacy -> forall o, legacy_opts_of (r_def r) = Some o -> f4_region (lo_fee o) r = false.
+    (cd_fmt (r_def r) = fmt_legacy -> forall o, legacy_opts_of (r_def r) = Some o -> f4_region (lo_fee o) r = false) /\
+    (cd_fmt (r_def r) = fmt_unpacked -> forall o, unpacked_opts_of (r_def r) = Some o -> f4_region (uo_fee o) r = false).
 
   Theorem repo_reports_no_panic cf seq bs : bok bs ->
     (forall o r, decode_outcome (c_pver cf) bs = Ok o -> In r (snd (reports_of cf seq o)) -> outside_f4 r) ->
     is_panic (plugin_reports repo_codecs retire_enc cf seq bs) = false.
   Proof.
     intros Hb Hg. apply (plugin_reports_no_panic repo_codecs retire_enc outside_f4); try assumption.
-    intros fmt enc r Hc Hf Hwf Hgood. unfold repo_codecs in Hc.
+    intros fmt enc r Hc Hf Hwf [Hg1 Hg2]. unfold repo_codecs in Hc.
     destruct (fmt =? fmt_legacy) eqn:E1.
     - inversion Hc; subst enc. destruct (legacy_encode (legacy_opts_of (r_def r)) r) as [b|e|s] eqn:El; try reflexivity.
       exfalso. destruct (EvmCodecProofs.legacy_panic_only_F4 _ _ _ Hwf El) as (o' & Ho & Hf4).
-      assert (fmt = fmt_legacy) by lia. rewrite (Hgood ltac:(congruence) o' Ho) in Hf4. discriminate.
-    - destruct (fmt =? fmt_streamlined); [|discriminate]. inversion Hc; subst enc.
-      apply (streamlined_no_panic widths). exact Hwf.
+      assert (fmt = fmt_legacy) by lia. rewrite (Hg1 ltac:(congruence) o' Ho) in Hf4. discriminate.
+    - destruct (fmt =? fmt_unpacked) eqn:E2.
+      + inversion Hc; subst enc. destruct (unpacked_encode (unpacked_opts_of (r_def r)) r) as [b|e|s] eqn:El; try reflexivity.
+        exfalso. destruct (unpacked_panic_only_F4 widths _ _ _ Hwf El) as (o' & Ho & Hf4).
+        assert (fmt = fmt_unpacked) by lia. rewrite (Hg2 ltac:(congruence) o' Ho) in Hf4. discriminate.
+      + destruct (fmt =? fmt_streamlined); [|discriminate]. inversion Hc; subst enc.
+        apply (streamlined_no_panic widths). exact Hwf.
   Qed.
 End RepoCodecs.
